@@ -13,7 +13,7 @@ import (
 )
 
 // FontKinds lists the font constructions the generator knows.
-var FontKinds = []string{"t1-winansi", "t1-macroman", "t1-std", "tt-winansi-tounicode", "type0-identity"}
+var FontKinds = []string{"t1-winansi", "t1-macroman", "t1-std", "tt-winansi-tounicode", "type0-identity", "t1-std14-tounicode"}
 
 // GenFont is a generated font with its encoder (rune -> code bytes).
 type GenFont struct {
@@ -72,7 +72,7 @@ func NewGenFont(id int, kind string, r *rand.Rand) *GenFont {
 		for _, ch := range asciiRepertoire + " " {
 			g.enc[ch] = []byte{byte(ch)}
 		}
-	case "tt-winansi-tounicode":
+	case "tt-winansi-tounicode", "t1-std14-tounicode":
 		g.ToUnicode = map[string]string{}
 		perm := r.Perm(0xfe - 0x21 + 1)
 		rep := []rune(asciiRepertoire + " ")
@@ -397,6 +397,7 @@ func RandomLayout(r *rand.Rand, revs int) Layout {
 		GapsAsFree: r.Intn(3) == 0,
 		ObjStmExtends: r.Intn(3) == 0,
 		Comments: r.Intn(3) == 0, Quotes: r.Intn(3) == 0, TJKern: r.Intn(3) == 0, Forms: r.Intn(3) == 0,
+		BoxIndirect: r.Intn(4) == 0,
 	}
 	switch r.Intn(4) {
 	case 0:
